@@ -521,10 +521,11 @@ MsgStart ==
   /\ cl.pc = "msgStart"
   /\ UNCHANGED <<env, cfg, obs>>
   /\ IF cl.m > N THEN Goto("sendRet")
-     ELSE IF cfg.nr[cl.m] = 0                       \* no recipients: refused before anything is sent
-          THEN cl' = [cl EXCEPT !.se[cl.m] = LocalErr("getrcpts"), !.m = @ + 1]
+     \* (the code looks at the encoding first, client.go sendSingleMsg: a message with both defects is refused for its encoding)
      ELSE IF cfg.enc8[cl.m] /\ "8BITMIME" \notin cl.ext
           THEN cl' = [cl EXCEPT !.se[cl.m] = LocalErr("noenc"), !.m = @ + 1]
+     ELSE IF cfg.nr[cl.m] = 0                       \* no recipients: refused before anything is sent
+          THEN cl' = [cl EXCEPT !.se[cl.m] = LocalErr("getrcpts"), !.m = @ + 1]
           ELSE Goto("mail")
 
 (* a command on a connection that is gone fails locally: nothing on the wire *)
